@@ -6,17 +6,14 @@ Property theorems only; helper lemmas live in `GluonModel/Lemmas/{Wildcard,Match
 Model: `GluonModel/Model/Match.lean` (`matchName` = `match`, `matchRoot`, `canon`, `listSuperiors`,
 `listInferiors`, `getMatchesOrd` = `getMatches` with the map iteration order as a parameter,
 `prepareMatch`), tied to /repo/internal/state/{match,paths}.go by the dialects `match`,
-`match-baddelim`, `superiors`, `inferiors`, `getmatches`.  Reference semantics:
+`match-small`, `match-baddelim`, `superiors`, `inferiors`, `getmatches`.  Reference semantics:
 `GluonModel/Spec/Wildcard.lean` (RFC 3501 wildcard relation `Wild`, hierarchy `levels`,
 `MatchSpec`, `ListSel`, `LsubSel`) — no regular expressions there.
 
-Three things are false of the current code at full strength, so the main theorems carry the
-named hypotheses `DelimOK d` (delimiter is not backslash), `NoNL name` (no newline in the
-mailbox name) and `CanonOK d (ref ++ pat)` (no hierarchy segment of reference ++ pattern after
-the first spells INBOX in another case than upper: `canon` upper-cases *every* such segment,
-the namespace only the first).  Witnesses: `match_eq_spec_false_backslash` /
-`match_backslash_panics`, `match_eq_spec_false_newline` / `list_exact_false_newline`,
-`match_eq_spec_false_inbox_segment` / `canon_spec_false`.
+After the repairs 8bd06a6 (delimiter quoted inside the character class), 3aa1f7a (`regexp.Compile`,
+no panic), 5fbe268 (`(?s)`) and 7e1a030 (`canon` looks at the first hierarchy level only) the
+theorems hold at full strength: no hypothesis on the delimiter, on newlines in names or on INBOX
+spellings remains.  The former counter-examples are kept as regression `example`s at the end.
 -/
 import GluonModel.Lemmas.MatchList
 import GluonModel.Generated.Facts.Match
@@ -26,79 +23,28 @@ namespace Gluon.C14
 open Gluon Gluon.Match
 
 /-- **`match` is the RFC 3501 matcher** — for every reference, every pattern (with `*` and `%` in
-    any position), every delimiter other than backslash and every mailbox name without newline
-    (unbounded length and depth), `match` does not panic and its answer is the one
-    `Spec.MatchSpec` prescribes: the root of the reference for the empty pattern; the name
-    itself iff the canonical `reference ++ pattern` matches it under "`*` = anything, `%` =
-    anything but the delimiter"; for a pattern ending in `%`, the longest hierarchy level of the
-    name that matches (the name itself whenever it matches), nothing iff no level matches. -/
-theorem match_eq_spec_partial (ref pat : Name) (d : Char) (name : Name) (hd : DelimOK d) (hn : NoNL name)
-    (hc : CanonOK d (ref ++ pat)) :
-    ∃ res ok, matchName ref pat d name = .ret res ok ∧ Spec.MatchSpec d ref pat name res ok := by
-  obtain ⟨res, ok, e, h⟩ := matchName_spec ref pat d name hd hn
-  refine ⟨res, ok, e, ?_⟩
-  unfold Spec.MatchSpec
-  rw [← (show canon d (ref ++ pat) = Spec.canon d (ref ++ pat) from hc)]
-  exact h
+    any position), every delimiter character and every mailbox name (unbounded length and
+    depth, any characters including newline and regular-expression metacharacters), the answer of
+    `match` is the one `Spec.MatchSpec` prescribes: the root of the reference for the empty
+    pattern; the name itself iff the canonical `reference ++ pattern` matches it under "`*` =
+    anything, `%` = anything but the delimiter"; for a pattern ending in `%`, the longest
+    hierarchy level of the name that matches (the name itself whenever it matches), nothing iff no
+    level matches.  (`match` has no panicking path: its result type has no such outcome.) -/
+theorem match_eq_spec (ref pat : Name) (d : Char) (name : Name) :
+    ∃ res ok, matchName ref pat d name = .ret res ok ∧ Spec.MatchSpec d ref pat name res ok :=
+  matchName_spec ref pat d name
 
 /-- **Whole-name matches are never truncated** — if the canonical pattern matches the whole
     name, `match` returns that name (also for patterns ending in `%`, where the regular
     expression is not anchored at the end). -/
-theorem match_whole (ref pat : Name) (d : Char) (name : Name) (hd : DelimOK d) (hn : NoNL name) (hp : pat ≠ [])
-    (hc : CanonOK d (ref ++ pat))
-    (hw : Spec.Wild d (Spec.canon d (ref ++ pat)) name) : matchName ref pat d name = .ret name true := by
-  rw [← (show canon d (ref ++ pat) = Spec.canon d (ref ++ pat) from hc)] at hw
-  exact match_reach_complete hd hn hp (Spec.self_mem_levels d name) hw
+theorem match_whole (ref pat : Name) (d : Char) (name : Name) (hp : pat ≠ [])
+    (hw : Spec.Wild d (Spec.canon d (ref ++ pat)) name) : matchName ref pat d name = .ret name true :=
+  match_reach_complete hp hw
 
-/-- **Delimiter backslash: LIST panics (DESIGN #22)** — with delimiter `\`, every call of `match`
-    whose `reference ++ pattern` contains a `%` panics (`regexp.MustCompile("…[^\]*…")`), for
-    every mailbox name. -/
-theorem match_backslash_panics (ref pat name : Name) (hp : pat ≠ []) (h : '%' ∈ ref ++ pat) :
-    matchName ref pat '\\' name = .panic :=
-  matchName_backslash_panics ref pat name hp h
-
-/-- witness that `match_eq_spec` is false without `DelimOK`: `match("", "%", "\\", "a")` panics -/
-theorem match_eq_spec_false_backslash :
-    matchName [] ['%'] '\\' ['a'] = .panic ∧ ¬ ∃ res ok, matchName [] ['%'] '\\' ['a'] = .ret res ok := by
-  have h : matchName [] ['%'] '\\' ['a'] = .panic := by decide
-  exact ⟨h, by rw [h]; simp⟩
-
-/-- witness that `match_eq_spec` is false without `NoNL`: `match("", "*", "/", "a\nb")` answers
-    "no match" although `*` matches every name (Go's `.` does not match a newline). -/
-theorem match_eq_spec_false_newline :
-    matchName [] ['*'] '/' ['a', '\n', 'b'] = .ret [] false ∧ Spec.Wild '/' ['*'] ['a', '\n', 'b'] := by
-  refine ⟨by decide, ?_⟩
-  exact .star ['a', '\n', 'b'] rfl .nil
-
-/-- witness that `match_eq_spec` is false without `CanonOK`: the mailbox `foo/inbox` (which CREATE
-    stores with exactly this spelling) is not matched by the pattern `foo/inbox`, because
-    `canon` turns the pattern into `foo/INBOX`. -/
-theorem match_eq_spec_false_inbox_segment :
-    matchName [] ['f', 'o', 'o', '/', 'i', 'n', 'b', 'o', 'x'] '/' ['f', 'o', 'o', '/', 'i', 'n', 'b', 'o', 'x']
-      = .ret [] false ∧
-    Spec.Wild '/' (Spec.canon '/' ['f', 'o', 'o', '/', 'i', 'n', 'b', 'o', 'x']) ['f', 'o', 'o', '/', 'i', 'n', 'b', 'o', 'x'] := by
-  refine ⟨by decide, ?_⟩
-  have : Spec.canon '/' ['f', 'o', 'o', '/', 'i', 'n', 'b', 'o', 'x'] = ['f', 'o', 'o', '/', 'i', 'n', 'b', 'o', 'x'] := by decide
-  rw [this]
-  decide
-
-/-- **What `canon` does** — it rewrites *every* hierarchy segment that spells INBOX in any letter
-    case to `INBOX` (single-pass description `canonAll`), for every name and delimiter. -/
-theorem canon_all_segments (d : Char) (n : Name) : canon d n = canonAll d n := canon_eq d n
-
-/-- **INBOX spelling, partial** — `canon` equals the reference spelling `Spec.canon` (first
-    hierarchy segment only, as the command layer stores names) exactly when what follows the
-    first segment is left unchanged by `canon`, i.e. no later segment spells INBOX in another
-    case than upper. -/
-theorem canon_spec_partial (d : Char) (n : Name) :
-    canon d n = Spec.canon d n ↔ canon d ((n.dropWhile (· != d)).drop 1) = (n.dropWhile (· != d)).drop 1 :=
-  canonOK_iff d n
-
-/-- witness that `canon_spec` is false at full strength: `foo/inbox` becomes `foo/INBOX`. -/
-theorem canon_spec_false :
-    canon '/' ['f', 'o', 'o', '/', 'i', 'n', 'b', 'o', 'x'] = ['f', 'o', 'o', '/', 'I', 'N', 'B', 'O', 'X'] ∧
-    Spec.canon '/' ['f', 'o', 'o', '/', 'i', 'n', 'b', 'o', 'x'] = ['f', 'o', 'o', '/', 'i', 'n', 'b', 'o', 'x'] := by
-  decide
+/-- **INBOX spelling** — `canon` is the reference spelling `Spec.canon`: the first hierarchy
+    segment becomes `INBOX` iff it spells INBOX in any letter case, nothing else changes (as the
+    command layer stores names), for every name and delimiter. -/
+theorem canon_spec (d : Char) (n : Name) : canon d n = Spec.canon d n := canon_eq d n
 
 /-- **Empty pattern** — `matchRoot` returns the reference up to and including its first
     delimiter, or the empty string if the reference contains no delimiter (RFC 3501 §6.3.8). -/
@@ -140,36 +86,31 @@ theorem inferiors_spec (d : Char) (parent : Name) (names : List Name) :
     exact sortNames_sorted _
 
 /-- **LIST returns exactly the names the RFC selects, `\Noselect` for pure parents** — for every
-    set of mailboxes (names without newline), every reference and non-empty pattern, every
-    delimiter other than backslash and *every* iteration order of Go's map: `getMatches` in LIST
-    mode does not panic, lists every name at most once, and lists `p` with attribute class `s`
-    iff `Spec.ListSel` holds: `p` is a hierarchy level of some mailbox (the mailbox itself or one
-    of its superiors), the canonical `reference ++ pattern` matches `p` under RFC 3501's
-    wildcard rules, and `s` is `\Noselect` exactly when `p` is not itself a selectable mailbox
-    (exists only as a parent).  A listed mailbox carries its own stored attributes. -/
-theorem list_exact (all : List MBox) (order : List Name) (ref pat : Name) (d : Char)
-    (hd : DelimOK d) (hp : pat ≠ []) (hn : ∀ m ∈ order, NoNL m) (hc : CanonOK d (ref ++ pat)) :
-    ∃ ms, getMatchesOrd all order ref pat d false = some ms ∧
-      (ms.map (·.1)).Nodup ∧
-      (∀ p a, (p, a) ∈ ms → a = attOf all p) ∧
-      ∀ p s, (∃ a, (p, a) ∈ ms ∧ a.sel = s) ↔
-        Spec.ListSel d (Spec.canon d (ref ++ pat)) order (selectable all) p s := by
-  rw [← (show canon d (ref ++ pat) = Spec.canon d (ref ++ pat) from hc)]
-  have hnp : ∀ m ∈ order, ∀ q ∈ Spec.levels d m, matchName ref pat d q ≠ .panic := by
-    intro m hm q hq
-    obtain ⟨res, ok, e, _⟩ := matchName_spec ref pat d q hd (nonl_of_level (hn m hm) hq)
-    rw [e]; simp
-  obtain ⟨ms, e, hI⟩ := getMatchesOrd_inv all order ref pat d false hnp
+    set of mailboxes, every reference and non-empty pattern, every delimiter and *every*
+    iteration order of Go's map: `getMatches` in LIST mode lists every name at most once, and lists
+    `p` with attribute class `s` iff `Spec.ListSel` holds: `p` is a hierarchy level of some mailbox
+    (the mailbox itself or one of its superiors), the canonical `reference ++ pattern` matches `p`
+    under RFC 3501's wildcard rules, and `s` is `\Noselect` exactly when `p` is not itself a
+    selectable mailbox (exists only as a parent).  A listed mailbox carries its own stored
+    attributes. -/
+theorem list_exact (all : List MBox) (order : List Name) (ref pat : Name) (d : Char) (hp : pat ≠ []) :
+    let ms := getMatchesOrd all order ref pat d false
+    (ms.map (·.1)).Nodup ∧
+    (∀ p a, (p, a) ∈ ms → a = attOf all p) ∧
+    ∀ p s, (∃ a, (p, a) ∈ ms ∧ a.sel = s) ↔
+      Spec.ListSel d (Spec.canon d (ref ++ pat)) order (selectable all) p s := by
+  intro ms
+  have hI := getMatchesOrd_inv all order ref pat d false
   have fwd : ∀ p a, (p, a) ∈ ms → a = attOf all p ∧ (∃ m ∈ order, p ∈ Spec.levels d m) ∧
-      Spec.Wild d (canon d (ref ++ pat)) p := by
+      Spec.Wild d (Spec.canon d (ref ++ pat)) p := by
     intro p a h
     obtain ⟨m, q, hc, hm, hpm⟩ := hI.sound p a h
     rw [mem_cands] at hc
     rw [prepareMatch_list] at hpm
     simp at hpm
-    obtain ⟨hl, hw⟩ := match_reach_sound hd (hn m hc.1) hp hc.2 hm
+    obtain ⟨hl, hw⟩ := match_reach_sound hp hc.2 hm
     exact ⟨hpm.symm, ⟨m, hc.1, hl⟩, hw⟩
-  refine ⟨ms, e, hI.nodup, fun p a h => (fwd p a h).1, ?_⟩
+  refine ⟨hI.nodup, fun p a h => (fwd p a h).1, ?_⟩
   intro p s
   simp only [Spec.ListSel]
   constructor
@@ -177,31 +118,25 @@ theorem list_exact (all : List MBox) (order : List Name) (ref pat : Name) (d : C
     obtain ⟨ha, hl, hw⟩ := fwd p a h
     exact ⟨hl, hw, by rw [ha, attOf_sel]⟩
   · rintro ⟨⟨m, hm, hl⟩, hw, rfl⟩
-    have hmp := match_reach_complete hd (hn m hm) hp hl hw
+    have hmp := match_reach_complete (ref := ref) hp hw
     rcases hI.complete m p p ((mem_cands d order m p).mpr ⟨hm, hl⟩) hmp with ⟨a, ha⟩ | h
     · exact ⟨a, ha, by rw [(fwd p a ha).1, attOf_sel]⟩
     · rw [prepareMatch_list] at h; cases h
 
 /-- **LSUB returns exactly the subscribed names the RFC selects** — `State.List` calls
-    `getMatches` in LSUB mode with the subscribed names only (hypothesis `hsub`; `order` = those
-    names in any map order).  Then, under the hypotheses of `list_exact`, a name `p` is listed
-    with class `s` iff `Spec.LsubSel` holds: the pattern matches `p` and either `p` is
-    subscribed, or the pattern ends in `%`, `p` is not subscribed but is a superior level of a
-    subscribed name — then it is listed `\Noselect` (RFC 3501 §6.3.9). -/
-theorem lsub_exact (all : List MBox) (order : List Name) (ref pat : Name) (d : Char)
-    (hd : DelimOK d) (hp : pat ≠ []) (hn : ∀ m ∈ order, NoNL m)
-    (horder : ∀ n, n ∈ order ↔ ∃ mb ∈ all, mb.name = n) (hsub : ∀ mb ∈ all, mb.subscribed = true)
-    (hc : CanonOK d (ref ++ pat)) :
-    ∃ ms, getMatchesOrd all order ref pat d true = some ms ∧
-      (ms.map (·.1)).Nodup ∧
-      ∀ p s, (∃ a, (p, a) ∈ ms ∧ a.sel = s) ↔
-        Spec.LsubSel d (Spec.canon d (ref ++ pat)) (endsPct pat) order (selectable all) p s := by
-  rw [← (show canon d (ref ++ pat) = Spec.canon d (ref ++ pat) from hc)]
-  have hnp : ∀ m ∈ order, ∀ q ∈ Spec.levels d m, matchName ref pat d q ≠ .panic := by
-    intro m hm q hq
-    obtain ⟨res, ok, e, _⟩ := matchName_spec ref pat d q hd (nonl_of_level (hn m hm) hq)
-    rw [e]; simp
-  obtain ⟨ms, e, hI⟩ := getMatchesOrd_inv all order ref pat d true hnp
+    `getMatches` in LSUB mode with the subscribed names only (hypothesis `hsub`, regenerated fact
+    `lsub_input_fact`; `order` = those names in any map order).  Then a name `p` is listed with
+    class `s` iff `Spec.LsubSel` holds: the pattern matches `p` and either `p` is subscribed, or
+    the pattern ends in `%`, `p` is not subscribed but is a superior level of a subscribed name —
+    then it is listed `\Noselect` (RFC 3501 §6.3.9). -/
+theorem lsub_exact (all : List MBox) (order : List Name) (ref pat : Name) (d : Char) (hp : pat ≠ [])
+    (horder : ∀ n, n ∈ order ↔ ∃ mb ∈ all, mb.name = n) (hsub : ∀ mb ∈ all, mb.subscribed = true) :
+    let ms := getMatchesOrd all order ref pat d true
+    (ms.map (·.1)).Nodup ∧
+    ∀ p s, (∃ a, (p, a) ∈ ms ∧ a.sel = s) ↔
+      Spec.LsubSel d (Spec.canon d (ref ++ pat)) (endsPct pat) order (selectable all) p s := by
+  intro ms
+  have hI := getMatchesOrd_inv all order ref pat d true
   -- membership in `order` versus the map lookup
   have hlook : ∀ p, p ∈ order ↔ (lookupMBox all p).isSome = true := by
     intro p; rw [horder, lookupMBox_isSome_iff]
@@ -211,12 +146,12 @@ theorem lsub_exact (all : List MBox) (order : List Name) (ref pat : Name) (d : C
       have := List.mem_of_find?_eq_some h
       simpa using this)
   have fwd : ∀ p a, (p, a) ∈ ms → (∃ m ∈ order, p ∈ Spec.levels d m) ∧
-      Spec.Wild d (canon d (ref ++ pat)) p ∧
+      Spec.Wild d (Spec.canon d (ref ++ pat)) p ∧
       ((p ∈ order ∧ a = attOf all p) ∨ (p ∉ order ∧ endsPct pat = true ∧ a = .noselect)) := by
     intro p a h
     obtain ⟨m, q, hc, hm, hpm⟩ := hI.sound p a h
     rw [mem_cands] at hc
-    obtain ⟨hl, hw⟩ := match_reach_sound hd (hn m hc.1) hp hc.2 hm
+    obtain ⟨hl, hw⟩ := match_reach_sound hp hc.2 hm
     refine ⟨⟨m, hc.1, hl⟩, hw, ?_⟩
     cases hlk : lookupMBox all p with
     | some mb =>
@@ -234,7 +169,7 @@ theorem lsub_exact (all : List MBox) (order : List Name) (ref pat : Name) (d : C
       cases he : endsPct pat with
       | true => simp [he] at hpm; exact ⟨hpo, rfl, hpm.symm⟩
       | false => simp [he] at hpm
-  refine ⟨ms, e, hI.nodup, ?_⟩
+  refine ⟨hI.nodup, ?_⟩
   intro p s
   simp only [Spec.LsubSel]
   constructor
@@ -250,7 +185,7 @@ theorem lsub_exact (all : List MBox) (order : List Name) (ref pat : Name) (d : C
       · simp at hl; exact absurd (hl ▸ hm) hpo
   · rintro ⟨hw, ⟨hpo, rfl⟩ | ⟨he, hpo, ⟨m, hm, hl⟩, rfl⟩⟩
     · have hl : p ∈ Spec.levels d p := Spec.self_mem_levels d p
-      have hmp := match_reach_complete hd (hn p hpo) hp hl hw
+      have hmp := match_reach_complete (ref := ref) hp hw
       obtain ⟨mb, hlk⟩ := Option.isSome_iff_exists.mp ((hlook p).mp hpo)
       rcases hI.complete p p p ((mem_cands d order p p).mpr ⟨hpo, hl⟩) hmp with ⟨a, ha⟩ | h
       · refine ⟨a, ha, ?_⟩
@@ -259,7 +194,7 @@ theorem lsub_exact (all : List MBox) (order : List Name) (ref pat : Name) (d : C
         · exact absurd hpo hno
       · rw [prepareMatch_lsub_some all p pat _ mb hlk (hlsub p mb hlk)] at h; cases h
     · have hl' : p ∈ Spec.levels d m := by simp [Spec.levels, hl]
-      have hmp := match_reach_complete hd (hn m hm) hp hl' hw
+      have hmp := match_reach_complete (ref := ref) hp hw
       have hlk : lookupMBox all p = none := by
         cases h : lookupMBox all p with
         | none => rfl
@@ -276,19 +211,17 @@ theorem lsub_exact (all : List MBox) (order : List Name) (ref pat : Name) (d : C
 
 /-- **`getMatches` as called by LIST** — `list_exact` for the concrete map `State.List` builds
     (`order` = the distinct names of `all`). -/
-theorem getMatches_list_exact (all : List MBox) (ref pat : Name) (d : Char)
-    (hd : DelimOK d) (hp : pat ≠ []) (hn : ∀ mb ∈ all, NoNL mb.name) (hc : CanonOK d (ref ++ pat)) :
-    ∃ ms, getMatches all ref pat d false = some ms ∧ (ms.map (·.1)).Nodup ∧
-      ∀ p s, (∃ a, (p, a) ∈ ms ∧ a.sel = s) ↔
-        Spec.ListSel d (Spec.canon d (ref ++ pat)) (all.map (·.name)) (selectable all) p s := by
+theorem getMatches_list_exact (all : List MBox) (ref pat : Name) (d : Char) (hp : pat ≠ []) :
+    let ms := getMatches all ref pat d false
+    (ms.map (·.1)).Nodup ∧
+    ∀ p s, (∃ a, (p, a) ∈ ms ∧ a.sel = s) ↔
+      Spec.ListSel d (Spec.canon d (ref ++ pat)) (all.map (·.name)) (selectable all) p s := by
+  intro ms
   have hk : ∀ n, n ∈ keys all ↔ n ∈ all.map (·.name) := fun n => List.mem_eraseDups
-  obtain ⟨ms, e, hnd, _, h⟩ := list_exact all (keys all) ref pat d hd hp (by
-    intro m hm
-    rw [hk] at hm
-    obtain ⟨mb, hmb, rfl⟩ := List.mem_map.mp hm
-    exact hn mb hmb) hc
-  refine ⟨ms, e, hnd, ?_⟩
+  obtain ⟨hnd, _, h⟩ := list_exact all (keys all) ref pat d hp
+  refine ⟨hnd, ?_⟩
   intro p s
+  show (∃ a, (p, a) ∈ getMatchesOrd all (keys all) ref pat d false ∧ a.sel = s) ↔ _
   rw [h p s]
   simp only [Spec.ListSel, hk]
 
@@ -297,11 +230,13 @@ theorem getMatches_list_exact (all : List MBox) (ref pat : Name) (d : Char)
     `prepareMatch` gives that name (`\Noselect` unless a mailbox is named exactly like the
     root); over an empty set it answers nothing. -/
 theorem list_root (all : List MBox) (order : List Name) (ref : Name) (d : Char) :
-    ∃ ms, getMatchesOrd all order ref [] d false = some ms ∧ (ms.map (·.1)).Nodup ∧
-      ∀ p a, (p, a) ∈ ms ↔ (order ≠ [] ∧ p = Spec.root d ref ∧ a = attOf all p) := by
+    let ms := getMatchesOrd all order ref [] d false
+    (ms.map (·.1)).Nodup ∧
+    ∀ p a, (p, a) ∈ ms ↔ (order ≠ [] ∧ p = Spec.root d ref ∧ a = attOf all p) := by
+  intro ms
   have hm : ∀ q, matchName ref [] d q = .ret (Spec.root d ref) true := by
     intro q; simp [matchName, matchRoot_eq]
-  obtain ⟨ms, e, hI⟩ := getMatchesOrd_inv all order ref [] d false (by intro m _ q _; rw [hm]; simp)
+  have hI := getMatchesOrd_inv all order ref [] d false
   have fwd : ∀ p a, (p, a) ∈ ms → order ≠ [] ∧ p = Spec.root d ref ∧ a = attOf all p := by
     intro p a h
     obtain ⟨m, q, hc, hmq, hpm⟩ := hI.sound p a h
@@ -311,7 +246,7 @@ theorem list_root (all : List MBox) (order : List Name) (ref : Name) (d : Char) 
     rw [prepareMatch_list] at hpm
     simp at hpm
     exact ⟨List.ne_nil_of_mem hc.1, rfl, hpm.symm⟩
-  refine ⟨ms, e, hI.nodup, ?_⟩
+  refine ⟨hI.nodup, ?_⟩
   intro p a
   constructor
   · exact fwd p a
@@ -321,24 +256,25 @@ theorem list_root (all : List MBox) (order : List Name) (ref : Name) (d : Char) 
     · rw [(fwd _ a ha).2.2] at ha; exact ha
     · rw [prepareMatch_list] at h; cases h
 
-/-- witness that `list_exact` is false without `NoNL`: the mailbox `a\nb` is not listed by `LIST "" *`. -/
-theorem list_exact_false_newline :
-    getMatchesOrd [⟨['a', '\n', 'b'], false, some []⟩] [['a', '\n', 'b']] [] ['*'] '/' false = some [] ∧
-    Spec.ListSel '/' (Spec.canon '/' ['*']) [['a', '\n', 'b']] (selectable [⟨['a', '\n', 'b'], false, some []⟩])
-      ['a', '\n', 'b'] .real := by
-  refine ⟨by decide, ⟨_, List.mem_singleton.mpr rfl, Spec.self_mem_levels _ _⟩, ?_, by decide⟩
-  exact .star ['a', '\n', 'b'] rfl .nil
-
 /-- **The expression `match` compiles is built from the pieces the model assumes** (regenerated
-    from the source by `vh facts`): `"^%v"` of `regexp.QuoteMeta(canon(…))`, `"$"` unless
+    from the source by `vh facts`): `"(?s)^%v"` of `regexp.QuoteMeta(canon(…))`, `"$"` unless
     `strings.HasSuffix(pattern, "%")`, `ReplaceAll` of `\*` by `.*`, then of `%` by `[^%v]*` of the
-    *unquoted* delimiter, `regexp.MustCompile`, `FindAllString`.  Any edit of these pieces breaks
-    this theorem, so the model cannot silently drift from the code. -/
+    `regexp.QuoteMeta`-quoted delimiter, `regexp.Compile` (an error returns `"", false`),
+    `FindAllString`.  Any edit of these pieces breaks this theorem, so the model cannot silently
+    drift from the code. -/
 theorem match_shape :
-    Facts.matchPieces = ["lit:", "call:matchRoot", "call:fmt.Sprintf", "lit:^%v", "call:regexp.QuoteMeta",
+    Facts.matchPieces = ["lit:", "call:matchRoot", "call:fmt.Sprintf", "lit:(?s)^%v", "call:regexp.QuoteMeta",
       "call:canon", "call:strings.HasSuffix", "lit:%", "lit:$", "call:strings.ReplaceAll", "lit:\\*", "lit:.*",
-      "call:strings.ReplaceAll", "lit:%", "call:fmt.Sprintf", "lit:[^%v]*", "call:_.FindAllString",
-      "call:regexp.MustCompile", "call:len", "lit:"] := by
+      "call:strings.ReplaceAll", "lit:%", "call:fmt.Sprintf", "lit:[^%v]*", "call:regexp.QuoteMeta",
+      "call:regexp.Compile", "lit:", "call:compiled.FindAllString", "call:len", "lit:"] := by
+  decide
+
+/-- **`canon` looks at the first hierarchy level only** (regenerated from the source): one
+    `strings.Split`, one `strings.EqualFold` on `split[0]`, an assignment to `split[0]`, one
+    `strings.Join`; no loop and no closure over the other levels. -/
+theorem canon_shape :
+    Facts.canonPieces = ["call:strings.Split", "call:strings.EqualFold", "index:split[0]", "index:split[0]",
+      "call:strings.Join"] := by
   decide
 
 /-- **LSUB hands only subscribed names to `getMatches`** (regenerated from `State.List`): the
@@ -348,20 +284,36 @@ theorem lsub_input_fact :
     Facts.listSkipsUnsubscribedInLsub = some true ∧ Facts.listSubscribedExprs = ["lsub", "true"] := by
   decide
 
-/-! ### non-vacuity: the hypotheses are satisfiable by non-trivial inputs and the conclusions are not empty -/
+/-! ### non-vacuity and regression examples (the former counter-examples, now per the reference) -/
 
-/-- `match_eq_spec_partial` on a real case: `LIST "inbox/" "%"` style query, nested name. -/
+/-- `match_eq_spec` on a real case: `LIST "inbox/" "%"` style query, nested name. -/
 example : matchName ['i', 'n', 'b', 'o', 'x', '/'] ['%'] '/' ['I', 'N', 'B', 'O', 'X', '/', 'a', '.', 'b', '/', 'c']
     = .ret ['I', 'N', 'B', 'O', 'X', '/', 'a', '.', 'b'] true := by decide
 
-example : DelimOK '/' ∧ DelimOK '.' ∧ DelimOK '|' ∧ DelimOK '*' ∧ NoNL ['a', '/', 'b'] := by
-  refine ⟨by simp [DelimOK], by simp [DelimOK], by simp [DelimOK], by simp [DelimOK], ?_⟩
-  intro x hx; simp at hx; rcases hx with rfl | rfl | rfl <;> decide
+/-- regression (8bd06a6): delimiter backslash with `%` in the pattern no longer panics and follows the
+    reference: `%` stops at the delimiter, `a\%` lists the children of `a`. -/
+example : matchName [] ['%'] '\\' ['a'] = .ret ['a'] true ∧
+    matchName [] ['%'] '\\' ['a', '\\', 'b'] = .ret ['a'] true ∧
+    matchName ['a', '\\'] ['%'] '\\' ['a', '\\', 'b'] = .ret ['a', '\\', 'b'] true ∧
+    Spec.Wild '\\' (Spec.canon '\\' ['a', '\\', '%']) ['a', '\\', 'b'] := by
+  refine ⟨by decide, by decide, by decide, by decide⟩
 
-/-- `CanonOK` holds for the usual queries, e.g. `inbox/%`, `foo/INBOX/*`, `a/b`. -/
-example : CanonOK '/' ['i', 'n', 'b', 'o', 'x', '/', '%'] ∧ CanonOK '/' ['f', 'o', 'o', '/', 'I', 'N', 'B', 'O', 'X', '/', '*'] ∧
-    CanonOK '/' ['a', '/', 'b'] := by
-  refine ⟨?_, ?_, ?_⟩ <;> (unfold CanonOK; decide)
+/-- regression (5fbe268): a name that contains a newline is matched by `*` and by `%`. -/
+example : matchName [] ['*'] '/' ['a', '\n', 'b'] = .ret ['a', '\n', 'b'] true ∧
+    matchName [] ['a', '%'] '/' ['a', '\n', 'b'] = .ret ['a', '\n', 'b'] true := by decide
+
+/-- regression (7e1a030): `foo/inbox` is an ordinary name: the pattern `foo/inbox` matches it and not
+    `foo/INBOX`; the first level is still case-insensitive. -/
+example : matchName [] ['f', 'o', 'o', '/', 'i', 'n', 'b', 'o', 'x'] '/' ['f', 'o', 'o', '/', 'i', 'n', 'b', 'o', 'x']
+      = .ret ['f', 'o', 'o', '/', 'i', 'n', 'b', 'o', 'x'] true ∧
+    matchName [] ['f', 'o', 'o', '/', 'i', 'n', 'b', 'o', 'x'] '/' ['f', 'o', 'o', '/', 'I', 'N', 'B', 'O', 'X']
+      = .ret [] false ∧
+    matchName [] ['i', 'n', 'b', 'o', 'x', '/', '%'] '/' ['I', 'N', 'B', 'O', 'X', '/', 'x'] = .ret ['I', 'N', 'B', 'O', 'X', '/', 'x'] true ∧
+    canon '/' ['f', 'o', 'o', '/', 'i', 'n', 'b', 'o', 'x'] = ['f', 'o', 'o', '/', 'i', 'n', 'b', 'o', 'x'] := by decide
+
+/-- regression: the mailbox `a\nb` is listed by `LIST "" *`. -/
+example : getMatchesOrd [⟨['a', '\n', 'b'], false, some []⟩] [['a', '\n', 'b']] [] ['*'] '/' false
+    = [(['a', '\n', 'b'], .real [])] := by decide
 
 /-- regex metacharacters in names are literal: `a.b` does not match `axb`, `(a)` matches `(a)`. -/
 example : matchName [] ['a', '.', 'b'] '/' ['a', 'x', 'b'] = .ret [] false ∧
@@ -376,12 +328,12 @@ example : listInferiors '/' ['a'] [['a'], ['a', 'b'], ['a', '/', 'b'], ['a', '/'
 
 /-- `list_exact` on a tree with a deleted parent: `a/b` exists, `a` does not → `a` is listed `\Noselect`. -/
 example : getMatchesOrd [⟨['a', '/', 'b'], false, some []⟩] [['a', '/', 'b']] [] ['*'] '/' false
-    = some [(['a', '/', 'b'], .real []), (['a'], .noselect)] := by decide
+    = [(['a', '/', 'b'], .real []), (['a'], .noselect)] := by decide
 
 /-- `lsub_exact`: `LSUB "" "%"` with only `a/b` subscribed lists `a` `\Noselect`; `LSUB "" "*"` lists `a/b` only. -/
 example : getMatchesOrd [⟨['a', '/', 'b'], true, some []⟩] [['a', '/', 'b']] [] ['%'] '/' true
-      = some [(['a'], .noselect)] ∧
+      = [(['a'], .noselect)] ∧
     getMatchesOrd [⟨['a', '/', 'b'], true, some []⟩] [['a', '/', 'b']] [] ['*'] '/' true
-      = some [(['a', '/', 'b'], .real [])] := by decide
+      = [(['a', '/', 'b'], .real [])] := by decide
 
 end Gluon.C14
